@@ -4,7 +4,7 @@ from session_common import *
 ID = 'C03'
 COQ_TARGETS = ['Props/Properties_C03.vo']
 PROPS_FILES = ['Props/Properties_C03.v']
-THEOREMS = ['C03_queue_discipline', 'C03_handoff_needs_success']
+THEOREMS = ['C03_queue_discipline', 'C03_handoff_needs_success', 'C03_data_needs_queue_start', 'C03_queue_not_started']
 ENGINES = [ENGINE]
 RULE = ('sessions with one to three transactions whose qmail-queue stand-in follows a plan per invocation: accept; exit code 1, 10, 11, 31, 40, 41, 53, 100, 255 '
         'after reading everything; killed by a signal after reading everything; die (exit or signal) before reading, after k message bytes, between message and '
